@@ -59,10 +59,13 @@ type c14case struct {
 	Resolve []int      `json:"resolve"`
 	NamesQ  [][]any    `json:"namesq"` // [taxid, name]
 	Seqs    []c14seq   `json:"seqs"`
-	Raw     *[3]string `json:"raw"` // optional: literal file contents (nodes, names, merged) instead of rows
-	Forms   [][]any    `json:"forms"`  // round 2: [kind, value] arguments of Taxonomy.Taxon(interface{}): kind int|str|f64|i64|nil|bytes
-	NamesM  [][]any    `json:"namesm"` // round 2: [taxid, pattern] for IsNameMatching
-	Loads   int        `json:"loads"`  // round 2: load the dump that many times and report the distinct sets of nodes left with a nil parent pointer
+	Raw     *[3]string `json:"raw"`     // optional: literal file contents (nodes, names, merged) instead of rows
+	Forms   [][]any    `json:"forms"`   // round 2: [kind, value] arguments of Taxonomy.Taxon(interface{}): kind int|str|f64|i64|nil|bytes
+	NamesM  [][]any    `json:"namesm"`  // round 2: [taxid, pattern] for IsNameMatching
+	Loads   int        `json:"loads"`   // round 2: load the dump that many times and report the distinct sets of nodes left with a nil parent pointer
+	Hist    []c14op    `json:"hist"`    // round 3: a history of operations on this one taxonomy object (c14r3.go)
+	Again   bool       `json:"again"`   // round 3: run pairs and paths a second time after everything else (state left by the weighted LCA)
+	Missing string     `json:"missing"` // round 3: file of the dump removed before loading
 }
 
 // codes: -1 = taxid unknown (Taxon returned an error), -2 = error return, -3 = panic / fatal
@@ -98,20 +101,23 @@ type c14lca struct {
 	WE string `json:"we"` // <slot>_error written by AddLCAWorker
 }
 type c14obs struct {
-	Kind    string      `json:"kind"` // ok | loaderr | loadpanic
-	Err     string      `json:"err,omitempty"`
-	Len     int         `json:"len"`
-	NAlias  int         `json:"nalias"`
-	Pairs   []c14pair   `json:"pairs"`
-	Paths   [][]int     `json:"paths"` // nil entry = unknown; [-2] = error
-	Ranks   []c14rank   `json:"ranks"`
-	Sets    []int       `json:"sets"`
-	Resolve []int       `json:"resolve"`
-	NamesQ  []int       `json:"namesq"`
-	Seqs    []c14seqobs `json:"seqs"`
-	Forms   []int       `json:"forms"`
-	NamesM  []int       `json:"namesm"`
-	NilPar  [][]int     `json:"nilpar"` // distinct sorted lists of taxids whose Parent() is nil after loading (one per distinct outcome over Loads loads)
+	Kind    string           `json:"kind"` // ok | loaderr | loadpanic
+	Err     string           `json:"err,omitempty"`
+	Len     int              `json:"len"`
+	NAlias  int              `json:"nalias"`
+	Pairs   []c14pair        `json:"pairs"`
+	Paths   [][]int          `json:"paths"` // nil entry = unknown; [-2] = error
+	Ranks   []c14rank        `json:"ranks"`
+	Sets    []int            `json:"sets"`
+	Resolve []int            `json:"resolve"`
+	NamesQ  []int            `json:"namesq"`
+	Seqs    []c14seqobs      `json:"seqs"`
+	Forms   []int            `json:"forms"`
+	NamesM  []int            `json:"namesm"`
+	NilPar  [][]int          `json:"nilpar"` // distinct sorted lists of taxids whose Parent() is nil after loading (one per distinct outcome over Loads loads)
+	Hist    []map[string]any `json:"hist,omitempty"`
+	Pairs2  []c14pair        `json:"pairs2,omitempty"`
+	Paths2  [][]int          `json:"paths2,omitempty"`
 }
 
 func init() {
@@ -199,6 +205,9 @@ func c14run(c c14case) (o c14obs) {
 	if err := c14write(dir, c); err != nil {
 		return c14obs{Kind: "loaderr", Err: err.Error()}
 	}
+	if c.Missing != "" {
+		os.Remove(filepath.Join(dir, c.Missing))
+	}
 	var tax *obitax.Taxonomy
 	func() {
 		defer func() {
@@ -218,47 +227,57 @@ func c14run(c c14case) (o c14obs) {
 	o.Len = tax.Len()
 	o.NAlias = len(*tax.Alias())
 
-	for _, p := range c.Pairs {
-		var r c14pair
-		t1, e1 := tax.Taxon(p[0])
-		t2, e2 := tax.Taxon(p[1])
-		if e1 != nil || e2 != nil {
-			r = c14pair{-1, -1}
-		} else {
-			r.LCA = guardInt(-3, func() int {
-				l, e := t1.LCA(t2)
-				if e != nil {
-					return -2
-				}
-				return l.Taxid()
-			})
-			r.Sub = guardInt(-3, func() int { return b2i14(t1.IsSubCladeOf(t2)) })
+	runPairs := func() []c14pair {
+		var out []c14pair
+		for _, p := range c.Pairs {
+			var r c14pair
+			t1, e1 := tax.Taxon(p[0])
+			t2, e2 := tax.Taxon(p[1])
+			if e1 != nil || e2 != nil {
+				r = c14pair{-1, -1}
+			} else {
+				r.LCA = guardInt(-3, func() int {
+					l, e := t1.LCA(t2)
+					if e != nil {
+						return -2
+					}
+					return l.Taxid()
+				})
+				r.Sub = guardInt(-3, func() int { return b2i14(t1.IsSubCladeOf(t2)) })
+			}
+			out = append(out, r)
 		}
-		o.Pairs = append(o.Pairs, r)
+		return out
 	}
-	for _, a := range c.Paths {
-		func() {
-			defer func() {
-				if e := recover(); e != nil {
-					o.Paths = append(o.Paths, []int{-3})
+	runPaths := func() [][]int {
+		var out [][]int
+		for _, a := range c.Paths {
+			func() {
+				defer func() {
+					if e := recover(); e != nil {
+						out = append(out, []int{-3})
+					}
+				}()
+				p, e := tax.Path(a)
+				if e != nil {
+					if _, e0 := tax.Taxon(a); e0 != nil {
+						out = append(out, nil)
+					} else {
+						out = append(out, []int{-2})
+					}
+					return
 				}
+				l := make([]int, 0, len(*p))
+				for _, n := range *p {
+					l = append(l, n.Taxid())
+				}
+				out = append(out, l)
 			}()
-			p, e := tax.Path(a)
-			if e != nil {
-				if _, e0 := tax.Taxon(a); e0 != nil {
-					o.Paths = append(o.Paths, nil)
-				} else {
-					o.Paths = append(o.Paths, []int{-2})
-				}
-				return
-			}
-			l := make([]int, 0, len(*p))
-			for _, n := range *p {
-				l = append(l, n.Taxid())
-			}
-			o.Paths = append(o.Paths, l)
-		}()
+		}
+		return out
 	}
+	o.Pairs = runPairs()
+	o.Paths = runPaths()
 	for _, q := range c.Ranks {
 		a, rk := toInt(q[0]), q[1].(string)
 		t, e := tax.Taxon(a)
@@ -380,6 +399,13 @@ func c14run(c c14case) (o c14obs) {
 	}
 	for _, s := range c.Seqs {
 		o.Seqs = append(o.Seqs, c14seqrun(tax, s))
+	}
+	if len(c.Hist) > 0 {
+		o.Hist = c14hist(tax, c.Hist)
+	}
+	if c.Again {
+		o.Pairs2 = runPairs()
+		o.Paths2 = runPaths()
 	}
 	return o
 }
